@@ -19,6 +19,10 @@ type RecoveryOptions struct {
 
 	// MemTableSize is the maximum size of each MemTable
 	MemTableSize int64
+
+	// EnforceMaxMemTables makes recovery fail instead of creating more than
+	// MaxMemTables MemTables
+	EnforceMaxMemTables bool
 }
 
 // DefaultRecoveryOptions returns the default recovery options
@@ -59,7 +63,10 @@ func RecoverFromWAL(cfg *config.Config, opts *RecoveryOptions) ([]*MemTable, uin
 		// Check if we should create a new memtable based on size
 		if current.ApproximateSize() >= opts.MemTableSize {
 			// Make sure we don't exceed the max number of memtables
-			if len(memTables) >= opts.MaxMemTables {
+			// (a log larger than the memtable budget is normal after many
+			// writes without a restart: refusing it would make the caller
+			// discard the log, so the limit is only enforced when asked for)
+			if opts.EnforceMaxMemTables && len(memTables) >= opts.MaxMemTables {
 				return fmt.Errorf("maximum number of memtables (%d) exceeded during recovery", opts.MaxMemTables)
 			}
 
